@@ -27,9 +27,28 @@ type lockCtx struct {
 	r        *core.Run
 	shared   map[*types.Named]bool    // struct types reachable from the shared root by field types
 	lockers  map[*ssa.Function]string // functions that Lock+defer Unlock a mutex field: -> "Type.field"
-	unlocked map[*ssa.Function]bool   // reachable from entries without passing through a locker
-	locked   map[*ssa.Function]bool   // reachable from inside a locker (excluding the locker itself unless re-entered)
+	regions  map[*ssa.Function]*lockRegion
+	unlocked map[*ssa.Function]bool // reachable from entries without passing through a locked region
+	locked   map[*ssa.Function]bool // reachable from inside a locked region
+	rlocked  map[*ssa.Function]bool // reachable from inside a region that holds the read lock only
 	entries  []*ssa.Function
+}
+
+// lockRegion: where a locking function takes its mutex. Everything the
+// function does before that point runs without the lock.
+type lockRegion struct {
+	mutex string
+	read  bool // RLock / RUnlock
+	block *ssa.BasicBlock
+	index int
+}
+
+// held: the instruction at (b, i) of the locker runs with the mutex held.
+func (lr *lockRegion) held(b *ssa.BasicBlock, i int) bool {
+	if b == lr.block {
+		return i > lr.index
+	}
+	return lr.block.Dominates(b)
 }
 
 func LockDiscipline(r *core.Run, cfg LockConfig) {
@@ -38,7 +57,8 @@ func LockDiscipline(r *core.Run, cfg LockConfig) {
 	r.Rule("R-LOCK/L3", "no function on the concurrent paths writes a package-level variable of the module or updates a package-level map")
 	r.Rule("R-LOCK/L4", "no call path from inside a locked region reaches a function that locks the same mutex again (sync.Mutex is not re-entrant); exactly one mutex is involved, so there is no lock-order question")
 	r.P.BuildSSA()
-	c := &lockCtx{r: r, shared: map[*types.Named]bool{}, lockers: map[*ssa.Function]string{}}
+	r.Rule("R-LOCK/L5", "every insertion into a shared map on the concurrent paths is dominated, in the same function (or at every call site of the inserting helper), by a lookup of the same map that runs with the write lock held: probe and insertion of a memo are one critical section, a probe made under another acquisition of the lock says nothing once the lock was released")
+	c := &lockCtx{r: r, shared: map[*types.Named]bool{}, lockers: map[*ssa.Function]string{}, regions: map[*ssa.Function]*lockRegion{}}
 	root := r.P.LookupType(core.Module+"/"+cfg.SharedRel, cfg.SharedType)
 	if root == nil {
 		r.Fatal("anchor: %s.%s not found", cfg.SharedRel, cfg.SharedType)
@@ -57,24 +77,34 @@ func LockDiscipline(r *core.Run, cfg LockConfig) {
 	g := r.P.VTA()
 	all := core.Reachable(g, c.entries, core.FollowSource)
 	for f := range all {
-		if m := lockerOf(f); m != "" {
-			c.lockers[f] = m
+		if lr := lockerOf(f); lr != nil {
+			c.lockers[f] = lr.mutex
+			c.regions[f] = lr
 		}
 	}
-	// unlocked reach: cut at lockers (the locker itself is entered, its callees are not followed)
-	c.unlocked = reachCut(g, c.entries, c.lockers)
-	var lockerList []*ssa.Function
-	for f := range c.lockers {
-		lockerList = append(lockerList, f)
+	// unlocked reach: a locking function is entered, of its callees only those called before the lock is taken are followed
+	c.unlocked = reachCut(g, c.entries, c.regions)
+	var wList, rList []*ssa.Function
+	for f, lr := range c.regions {
+		if lr.read {
+			rList = append(rList, heldCallees(g, f, lr)...)
+		} else {
+			wList = append(wList, heldCallees(g, f, lr)...)
+		}
 	}
-	c.locked = core.Reachable(g, lockerList, core.FollowSource)
+	c.locked = core.Reachable(g, append(append([]*ssa.Function{}, wList...), rList...), core.FollowSource)
+	c.rlocked = core.Reachable(g, rList, core.FollowSource)
 	r.Analysed["shared_types"] = len(c.shared)
 	r.Analysed["reachable_functions"] = len(all)
 	r.Analysed["functions_outside_locked_regions"] = len(c.unlocked)
 	r.Analysed["functions_inside_locked_regions"] = len(c.locked)
 	var names []string
 	for f, m := range c.lockers {
-		names = append(names, core.FuncKey(f)+" locks "+m)
+		if c.regions[f].read {
+			names = append(names, core.FuncKey(f)+" read-locks "+m)
+		} else {
+			names = append(names, core.FuncKey(f)+" locks "+m)
+		}
 	}
 	sort.Strings(names)
 	r.Note("locking functions: %s", strings.Join(names, "; "))
@@ -101,7 +131,7 @@ func LockDiscipline(r *core.Run, cfg LockConfig) {
 	}
 	for f := range c.lockers {
 		// re-entry: is any locker reachable from the callees of f?
-		inner := core.Reachable(g, calleesOf(g, f), core.FollowSource)
+		inner := core.Reachable(g, heldCallees(g, f, c.regions[f]), core.FollowSource)
 		o := r.Add("R-LOCK/L4", "re-entry | "+core.FuncKey(f), f.Pos(), "re-entrancy of "+core.FuncKey(f))
 		bad := ""
 		for l, m := range c.lockers {
@@ -110,7 +140,7 @@ func LockDiscipline(r *core.Run, cfg LockConfig) {
 			}
 		}
 		if bad == "" {
-			o.Auto("no locking function of the same mutex is reachable from inside the locked region")
+			o.Auto("no function that takes the same mutex (for reading or writing) is reachable from inside the locked region")
 		} else {
 			o.Fail("%s is reachable while the mutex is held: self-deadlock", bad)
 		}
@@ -178,35 +208,104 @@ func (c *lockCtx) collectShared(root *types.Named) {
 	visit(root)
 }
 
-// lockerOf: the function locks a sync.(RW)Mutex field in its entry block and
-// defers the unlock; returns "Type.field" of the mutex.
-func lockerOf(f *ssa.Function) string {
-	if len(f.Blocks) == 0 {
-		return ""
-	}
-	locked := ""
-	deferred := false
-	for _, in := range f.Blocks[0].Instrs {
-		switch x := in.(type) {
-		case *ssa.Call:
-			if callee := x.Call.StaticCallee(); callee != nil && (callee.String() == "(*sync.Mutex).Lock" || callee.String() == "(*sync.RWMutex).Lock") {
-				if fa, ok := x.Call.Args[0].(*ssa.FieldAddr); ok {
-					st := fa.X.Type().Underlying().(*types.Pointer).Elem()
-					locked = core.TypeStr(st) + "." + st.Underlying().(*types.Struct).Field(fa.Field).Name()
-				}
-			} else if locked == "" && callee != nil && core.IsSource(core.FuncPkgPath(callee)) {
-				return "" // another module call before the lock
+// lockerOf: the function locks a sync.(RW)Mutex field — for writing or for
+// reading — and defers the matching unlock before it does anything else with
+// the lock held; returns the region. The lock need not be the first thing the
+// function does: what precedes it runs unlocked and is treated so.
+func lockerOf(f *ssa.Function) *lockRegion {
+	for _, b := range f.Blocks {
+		for i, in := range b.Instrs {
+			x, ok := in.(*ssa.Call)
+			if !ok {
+				continue
 			}
-		case *ssa.Defer:
-			if callee := x.Call.StaticCallee(); callee != nil && (callee.String() == "(*sync.Mutex).Unlock" || callee.String() == "(*sync.RWMutex).Unlock") {
-				deferred = true
+			callee := x.Call.StaticCallee()
+			if callee == nil {
+				continue
+			}
+			var read bool
+			switch callee.String() {
+			case "(*sync.Mutex).Lock", "(*sync.RWMutex).Lock":
+			case "(*sync.RWMutex).RLock":
+				read = true
+			default:
+				continue
+			}
+			fa, ok := x.Call.Args[0].(*ssa.FieldAddr)
+			if !ok {
+				continue
+			}
+			st := fa.X.Type().Underlying().(*types.Pointer).Elem()
+			name := core.TypeStr(st) + "." + st.Underlying().(*types.Struct).Field(fa.Field).Name()
+			// the deferred unlock follows before any other call
+			for _, nx := range b.Instrs[i+1:] {
+				if d, ok := nx.(*ssa.Defer); ok {
+					if dc := d.Call.StaticCallee(); dc != nil {
+						want := map[bool][]string{false: {"(*sync.Mutex).Unlock", "(*sync.RWMutex).Unlock"}, true: {"(*sync.RWMutex).RUnlock"}}[read]
+						for _, w := range want {
+							if dc.String() == w {
+								return &lockRegion{mutex: name, read: read, block: b, index: i}
+							}
+						}
+					}
+					break
+				}
+				if _, isCall := nx.(*ssa.Call); isCall {
+					break
+				}
 			}
 		}
 	}
-	if locked != "" && deferred {
-		return locked
+	return nil
+}
+
+// heldCallees: module functions called (and closures made) by a locker with the mutex held.
+func heldCallees(g *callgraph.Graph, f *ssa.Function, lr *lockRegion) []*ssa.Function {
+	return regionCallees(g, f, lr, true)
+}
+
+func regionCallees(g *callgraph.Graph, f *ssa.Function, lr *lockRegion, held bool) []*ssa.Function {
+	var out []*ssa.Function
+	where := func(in ssa.Instruction) bool {
+		b := in.Block()
+		if b == nil {
+			return held
+		}
+		for i, x := range b.Instrs {
+			if x == in {
+				return lr.held(b, i) == held
+			}
+		}
+		return held
 	}
-	return ""
+	if n := g.Nodes[f]; n != nil {
+		for _, e := range n.Out {
+			if e.Callee.Func == nil || !core.IsSource(core.FuncPkgPath(e.Callee.Func)) {
+				continue
+			}
+			if e.Site == nil || where(e.Site) {
+				out = append(out, e.Callee.Func)
+			}
+		}
+	}
+	for _, a := range f.AnonFuncs {
+		// a closure belongs to the part of the function that creates it
+		made := false
+		for _, b := range f.Blocks {
+			for i, in := range b.Instrs {
+				if mc, ok := in.(*ssa.MakeClosure); ok && mc.Fn == a {
+					made = true
+					if lr.held(b, i) == held {
+						out = append(out, a)
+					}
+				}
+			}
+		}
+		if !made && held {
+			out = append(out, a)
+		}
+	}
+	return out
 }
 
 func calleesOf(g *callgraph.Graph, f *ssa.Function) []*ssa.Function {
@@ -223,8 +322,8 @@ func calleesOf(g *callgraph.Graph, f *ssa.Function) []*ssa.Function {
 }
 
 // reachCut: reachable set from the entries where locking functions are
-// included but not expanded.
-func reachCut(g *callgraph.Graph, entries []*ssa.Function, lockers map[*ssa.Function]string) map[*ssa.Function]bool {
+// included and expanded only through what they call before they take the lock.
+func reachCut(g *callgraph.Graph, entries []*ssa.Function, regions map[*ssa.Function]*lockRegion) map[*ssa.Function]bool {
 	seen := map[*ssa.Function]bool{}
 	var stack []*ssa.Function
 	for _, e := range entries {
@@ -236,18 +335,18 @@ func reachCut(g *callgraph.Graph, entries []*ssa.Function, lockers map[*ssa.Func
 	for len(stack) > 0 {
 		f := stack[len(stack)-1]
 		stack = stack[:len(stack)-1]
-		if _, isLocker := lockers[f]; isLocker {
-			continue
+		var next []*ssa.Function
+		if lr, isLocker := regions[f]; isLocker {
+			next = regionCallees(g, f, lr, false)
+		} else {
+			next = calleesOf(g, f)
 		}
-		for _, c := range calleesOf(g, f) {
+		for _, c := range next {
 			if !seen[c] {
 				seen[c] = true
 				stack = append(stack, c)
 			}
 		}
-	}
-	for f := range lockers {
-		delete(seen, f) // the locker's own body runs under the lock
 	}
 	return seen
 }
@@ -295,11 +394,36 @@ func isFresh(v ssa.Value) bool {
 func (c *lockCtx) scan(f *ssa.Function) {
 	r := c.r
 	fk := core.FuncKey(f)
+	lr := c.regions[f]
+	var curB *ssa.BasicBlock
+	curI := 0
+	// state of the current instruction: without the lock, with the read lock only, or with the write lock
+	unlockedHere := func() bool {
+		if lr != nil && lr.held(curB, curI) {
+			return false
+		}
+		return c.unlocked[f]
+	}
+	readOnlyHere := func() bool {
+		if lr != nil && lr.held(curB, curI) {
+			return lr.read
+		}
+		return c.rlocked[f]
+	}
 	inUnlocked := c.unlocked[f]
 	report := func(rule, what string, pos token.Pos, desc string, critical bool) {
 		o := r.Add(rule, fk+" | "+what, pos, desc)
-		if !inUnlocked {
-			o.Auto("function is reachable from the entry points only through a locked region")
+		isWrite := !strings.HasPrefix(desc, "read") && !strings.HasPrefix(desc, "iteration")
+		if !unlockedHere() {
+			if isWrite && readOnlyHere() && !strings.HasPrefix(desc, "atomic update") {
+				o.Fail("%s with only the read lock held: readers run concurrently with each other, a write among them is a data race", desc)
+				return
+			}
+			if lr != nil {
+				o.Auto("runs after the function has taken the lock")
+			} else {
+				o.Auto("function is reachable from the entry points only through a locked region")
+			}
 			return
 		}
 		if strings.HasPrefix(desc, "atomic update") {
@@ -309,11 +433,13 @@ func (c *lockCtx) scan(f *ssa.Function) {
 		o.Fail("%s in a function reachable from the concurrent entry points without the lock held: data race on state shared by all users of the codec", desc)
 	}
 	for _, b := range f.Blocks {
-		for _, in := range b.Instrs {
+		for ii, in := range b.Instrs {
+			curB, curI = b, ii
 			switch x := in.(type) {
 			case *ssa.MapUpdate:
 				if fld, ok := c.fieldOf(x.Map); ok {
 					report("R-LOCK/L1", "map write "+fld, x.Pos(), "write to shared map "+fld, true)
+					c.probeBeforeInsert(f, b, ii, x, fld)
 				} else if g := globalOf(x.Map); g != "" {
 					r.Add("R-LOCK/L3", fk+" | map write "+g, x.Pos(), "update of package-level map "+g).Fail("package-level state is shared by every goroutine")
 				}
@@ -387,6 +513,73 @@ func globalOf(v ssa.Value) string {
 		}
 	}
 	return ""
+}
+
+// probeBeforeInsert (L5): the insertion M[k] = v at (b, i) of f is dominated by a lookup of
+// the same shared map field in f that runs with the write lock held — or, when f only inserts,
+// every call of f is dominated by one in its caller.
+func (c *lockCtx) probeBeforeInsert(f *ssa.Function, b *ssa.BasicBlock, i int, up *ssa.MapUpdate, fld string) {
+	r := c.r
+	o := r.Add("R-LOCK/L5", core.FuncKey(f)+" | insert "+fld, up.Pos(), "insertion into shared map "+fld)
+	// dominated(g, blk, idx): a lookup of fld in g dominates (blk, idx) and is not made before g takes its lock or under a read lock
+	dominated := func(g *ssa.Function, blk *ssa.BasicBlock, idx int) bool {
+		glr := c.regions[g]
+		for _, pb := range g.Blocks {
+			for pi, in := range pb.Instrs {
+				lk, ok := in.(*ssa.Lookup)
+				if !ok {
+					continue
+				}
+				if _, isMap := lk.X.Type().Underlying().(*types.Map); !isMap {
+					continue
+				}
+				if pf, ok := c.fieldOf(lk.X); !ok || pf != fld {
+					continue
+				}
+				if !(pb == blk && pi < idx) && !(pb != blk && pb.Dominates(blk)) {
+					continue
+				}
+				if glr != nil && (!glr.held(pb, pi) || glr.read) {
+					continue
+				}
+				return true
+			}
+		}
+		return false
+	}
+	if dominated(f, b, i) {
+		o.Auto("a lookup of the same map dominates the insertion in this function")
+		return
+	}
+	// one level of callers
+	g := r.P.VTA()
+	n := g.Nodes[f]
+	sites := 0
+	if n != nil {
+		for _, e := range n.In {
+			caller := e.Caller.Func
+			if caller == nil || e.Site == nil || !(c.locked[caller] || c.unlocked[caller]) {
+				continue
+			}
+			sites++
+			sb := e.Site.Block()
+			si := -1
+			for k, in := range sb.Instrs {
+				if in == e.Site {
+					si = k
+				}
+			}
+			if !dominated(caller, sb, si) {
+				o.Fail("no lookup of %s precedes the insertion under the same acquisition of the lock (neither in this function nor before the call in %s): two callers that both miss insert twice, the second build overwrites what the first registered", fld, core.FuncKey(caller))
+				return
+			}
+		}
+	}
+	if sites == 0 {
+		o.Fail("no lookup of %s precedes the insertion under the same acquisition of the lock: two callers that both miss insert twice, the second build overwrites what the first registered", fld)
+		return
+	}
+	o.Auto("every call of this function is dominated by a lookup of the same map in its caller")
 }
 
 var _ = fmt.Sprintf
